@@ -53,7 +53,8 @@ ENGINES = {
                   variants=[("", [])], probes=[],
                   shared_libs=[("libsimrealA.so", "sim/dlsim/testlib.c", ["-DLIBID=0"]),
                                ("libsimrealB.so", "sim/dlsim/testlib.c", ["-DLIBID=1"])]),
-    "logsim": dict(src=["sim/logsim/logsim.cpp"], nitro_src=[], opt="-O0", recycle=300,
+    "logsim": dict(src=["sim/logsim/logsim.cpp", "sim/logsim/logsim_cat1.cpp", "sim/logsim/logsim_cat2.cpp", "sim/logsim/logsim_cat3.cpp"],
+                   nitro_src=[], opt="-O0", recycle=300,
                    ld=["-Wl,--wrap=pthread_mutex_lock,--wrap=pthread_mutex_unlock,--wrap=pthread_mutex_trylock,"
                        "--wrap=pthread_mutex_timedlock,--wrap=pthread_mutex_clocklock,"
                        "--wrap=pthread_rwlock_rdlock,--wrap=pthread_rwlock_wrlock,--wrap=pthread_rwlock_tryrdlock,"
@@ -68,20 +69,20 @@ ENGINES = {
 
 # runs per tier are fixed counts (the explored seed set must not depend on machine load)
 PROPS = {
-    "C06": dict(engine="fvsim", level="fault_enumeration", quick=160000, thorough=6000000,
+    "C06": dict(engine="fvsim", level="fault_enumeration", quick=300000, thorough=6000000,
                 design="3.2"),
-    "C07": dict(engine="fvsim", level="exploration", quick=400000, thorough=40000000,
+    "C07": dict(engine="fvsim", level="exploration", quick=800000, thorough=40000000,
                 design="3.2"),
-    "C18": dict(engine="ownsim", level="fault_enumeration", quick=160000, thorough=20000000,
+    "C18": dict(engine="ownsim", level="fault_enumeration", quick=400000, thorough=20000000,
                 design="3.5"),
-    "C13": dict(engine="optsim", level="exploration", quick=40000, thorough=1500000, design="3.3"),
+    "C13": dict(engine="optsim", level="exploration", quick=50000, thorough=1500000, design="3.3"),
     "C14": dict(engine="optsim", level="exploration", quick=10000, thorough=60000, design="3.3"),
-    "C15": dict(engine="usagesim", level="exploration", quick=40000, thorough=6000000, design="3.4"),
-    "C19": dict(engine="dlsim", level="fault_enumeration", quick=160000, thorough=20000000,
+    "C15": dict(engine="usagesim", level="exploration", quick=80000, thorough=6000000, design="3.4"),
+    "C19": dict(engine="dlsim", level="fault_enumeration", quick=400000, thorough=20000000,
                 design="3.6"),
-    "C05": dict(engine="logsim", level="exploration", quick=96000, thorough=4000000, design="3.1"),
-    "C09": dict(engine="logsim", level="exploration", quick=96000, thorough=4000000, design="3.1"),
-    "C10": dict(engine="logsim", level="exploration", quick=96000, thorough=4000000, design="3.1"),
+    "C05": dict(engine="logsim", level="exploration", quick=128000, thorough=4000000, design="3.1"),
+    "C09": dict(engine="logsim", level="exploration", quick=128000, thorough=4000000, design="3.1"),
+    "C10": dict(engine="logsim", level="exploration", quick=128000, thorough=4000000, design="3.1"),
 }
 QUICK_WALL_CAP = 150      # seconds of search; a slow machine ends the batch early
 THOROUGH_WALL_CAP = 2400
